@@ -238,6 +238,32 @@ def admitting_edges(ins, idx, dataarg):
     return emp, pol_edges
 
 
+def store_paths_admitted(ins, store_bb, idx, dataarg):
+    """(all paths to the store are admitted, some path comes through the empty-slot side) by path-sensitive enumeration:
+    a path is admitted if it saw the slot empty or took `existing.data.should_overwrite_with(&data)` as true."""
+    paths = decision_paths(ins, 2000, start=0, stop={store_bb})
+    if not paths or len(paths) >= 2000:
+        return None
+    all_ok, via_empty = True, False
+    for conds, _env, bb in paths:
+        has_empty = has_policy = False
+        for (e, val) in conds:
+            d = deep_strip(e)
+            truth = (val != 0) if isinstance(val, int) else (0 in val[1] if isinstance(val, tuple) and val[0] == "otherwise" else None)
+            if isinstance(d, tuple) and d and d[0] == "discr":
+                sl = slot_of(d[1]) or slot_of(("deref", d[1]))
+                if sl and sl[1] is None and truth is False:
+                    has_empty = True
+            if isinstance(d, tuple) and d and d[0] == "call" and isinstance(d[1], str) and d[1].endswith("should_overwrite_with") and truth is True:
+                sx = slot_of(d[2][0])
+                if sx and sx[1] == "data" and strip_refs(d[2][1]) == dataarg:
+                    has_policy = True
+        if not (has_empty or has_policy):
+            all_ok = False
+        via_empty = via_empty or has_empty
+    return all_ok, via_empty
+
+
 def rule_policy(fx, rep):
     ok = True
     ins = fx.one("TranspositionTable::insert")
@@ -275,7 +301,13 @@ def rule_policy(fx, rep):
             # should_overwrite_with(existing.data, &data) is true (the two may be separate arms or one join)
             emp_e, pol_e = admitting_edges(ins, idx, dataarg)
             if bb in ins.reachable(0, removed_edges=emp_e + pol_e):
-                good, why = False, "the store is neither in the empty-slot arm nor guarded by `existing.data.should_overwrite_with(&data)`"
+                # not visible as edges: the admission may be carried in a flag (`let should_store = match .. { Some(e) => e.data.
+                # should_overwrite_with(&data), None => true }; if should_store { store }`): decide per path instead
+                verdict = store_paths_admitted(ins, bb, idx, dataarg)
+                if verdict is None or verdict[0] is False:
+                    good, why = False, "the store is neither in the empty-slot arm nor guarded by `existing.data.should_overwrite_with(&data)`"
+                elif verdict[1]:
+                    empties.append(bb)
             elif bb in ins.reachable(0, removed_edges=pol_e):
                 # reachable through the empty-slot edge
                 empties.append(bb)
@@ -298,8 +330,21 @@ def rule_policy(fx, rep):
         # the increment happens only on the empty-slot side ...
         good = bool(adds) and bool(emp_e) and ib not in ins.reachable(0, removed_edges=emp_e)
         # ... and every run that takes the empty-slot edge both increments and stores before returning
+        edge_ok = good
         for (a, tgt) in emp_e:
-            good = good and ins.must_pass(tgt, [ib], ins.return_blocks()) and ins.must_pass(tgt, [empties[0]], ins.return_blocks())
+            edge_ok = edge_ok and ins.must_pass(tgt, [ib], ins.return_blocks()) and ins.must_pass(tgt, [empties[0]], ins.return_blocks())
+        if good and not edge_ok:
+            # path-sensitive retry (an admission flag makes the CFG look as if the store could be skipped after the increment)
+            full = decision_paths(ins, 2000, trace=True)
+            edge_ok = bool(full) and len(full) < 2000
+            store_bbs = {x[0] for x in st}
+            for conds, ret, trail in full:
+                took_empty = any((trail[i], trail[i + 1]) in set(emp_e) for i in range(len(trail) - 1))
+                passes_inc = ib in trail
+                passes_store = bool(store_bbs & set(trail))
+                if took_empty != passes_inc or (took_empty and not passes_store):
+                    edge_ok = False
+        good = good and edge_ok
     rep.obligation(good)
     if not good:
         bad("occupied", f"`occupied` is not incremented by exactly 1 exactly when an empty slot is filled (increments: {[(x[0], show(x[1])[:60]) for x in incs]}, empty-arm stores: {empties})")
